@@ -224,7 +224,7 @@ def run(ctx):
         selftest(ctx)
     from vf.gen.prog import gen_program
 
-    for i in ctx.mine(ctx.n(200, 6000)):
+    for i in ctx.mine(ctx.n(200, 20000)):
         r = ctx.rng("program", i)
         p = gen_program(r, budget=30)
         nl = ctx.guard("program", p, check_program_loads, ctx, p)
